@@ -220,6 +220,14 @@ func runC18(res *Result, tier string, seed int64, replay string) {
 		pair{"named-entity-behind-comment", wrap(`<!-- &copy; 2023 --><mj-text>x &copy; y</mj-text>`), wrap("<!-- &copy; 2023 --><mj-text>x © y</mj-text>")},
 		pair{"named-entity-behind-cdata-text", wrap(`<mj-text><![CDATA[write &nbsp; here]]></mj-text><mj-text>a&nbsp;b</mj-text>`), wrap("<mj-text><![CDATA[write &nbsp; here]]></mj-text><mj-text>a\u00a0b</mj-text>")},
 		pair{"named-entity-behind-comment-in-attribute", wrap(`<!-- &mdash; --><mj-image src="i.png" alt="a &mdash; b"/>`), wrap("<!-- &mdash; --><mj-image src=\"i.png\" alt=\"a — b\"/>")},
+		// comment and CDATA terminators that come with a longer run of the same byte (content ending in ']' or '-'): what follows
+		// is markup again
+		pair{"entity-behind-cdata-ending-in-brackets", wrap(`<mj-raw><![CDATA[a[b[0]]]]></mj-raw><mj-text>x &copy; y</mj-text><mj-image src="i.png?a=1&b=2" alt="a &mdash; b"/>`),
+			wrap("<mj-raw><![CDATA[a[b[0]]]]></mj-raw><mj-text>x © y</mj-text><mj-image src=\"i.png?a=1&amp;b=2\" alt=\"a — b\"/>")},
+		pair{"entity-behind-cdata-ending-in-one-bracket", wrap(`<mj-raw><![CDATA[see [1]]]></mj-raw><mj-button href="u?x=1&y=2">a&nbsp;b</mj-button>`),
+			wrap("<mj-raw><![CDATA[see [1]]]></mj-raw><mj-button href=\"u?x=1&amp;y=2\">a\u00a0b</mj-button>")},
+		pair{"entity-behind-comment-ending-in-dashes", wrap(`<!-- rule ----><mj-text>x &reg; y</mj-text><mj-image src="i.png?a=1&b=2"/>`),
+			wrap("<!-- rule ----><mj-text>x ® y</mj-text><mj-image src=\"i.png?a=1&amp;b=2\"/>")},
 		pair{"named-entity-mdash", wrap(`<mj-text>x &mdash; y &hellip;</mj-text>`), wrap("<mj-text>x — y …</mj-text>")},
 		pair{"raw-html-vs-cdata", wrap(`<mj-text>Hi <b>bold</b> &amp; <br> more</mj-text>`), wrap(`<mj-text><![CDATA[Hi <b>bold</b> &amp; <br> more]]></mj-text>`)},
 		pair{"raw-html-cdata-end", wrap(`<mj-text>a ]]&gt; b</mj-text>`), wrap(`<mj-text><![CDATA[a ]]&gt; b]]></mj-text>`)},
